@@ -445,6 +445,9 @@ def run_property(prop, module, tier, repo, seed):
         ctx = Ctx(repo)
         R.census = dict(ctx.m.census())
         R.census["normalisation"] = {"inlined_or_folded_sites": len(ctx.m.inlined), "helpers_removed": list(ctx.m.dropped_helpers)[:40], "sites": [f"{a} -> {b}:{c}" for a, b, c in ctx.m.inlined[:40]]}
+        if getattr(ctx.m, "normalisation_error", None):
+            R.census["normalisation"]["error"] = ctx.m.normalisation_error
+            print(f"NORMALISATION-SKIPPED property={prop} the normalisation pass failed on this tree; it is analysed as written ({ctx.m.normalisation_error.strip().splitlines()[-1][:120]})")
         if ctx.m.inlined:
             print(f"NORMALISED property={prop} {len(ctx.m.inlined)} call sites of helpers/constants that are not on the pinned tree were inlined (sa/inline.py); helpers removed from the model: {len(ctx.m.dropped_helpers)}")
         module.run(ctx, R)
